@@ -197,7 +197,11 @@ class BMSIO(GameIO):
                     kk = active(tl, t)
                     slots.append(tl[kk][2] + float(snap_frac((t - tl[kk][0]) * tl[kk][1] / 60000.0)))
             if any(y - x < 1e-9 for x, y in zip(slots, slots[1:])):
-                return "objects collide in a (lane, grid slot) or overlap a long note"
+                if len({round(x, 9) for x in slots}) == len(slots):
+                    # every object has a slot of its own, but a long note contains another object of its lane: the #LNOBJ rule
+                    # ("the head is the preceding object") cannot say that, so only conservation of objects is judged
+                    return "a long note contains another object of its lane"
+                return "objects collide in a (lane, grid slot)"
         return ""
 
     # -------------------------------------------------------------- C05
@@ -248,9 +252,11 @@ class BMSIO(GameIO):
 
     def cmp_gen(self, dk, d1) -> list[str]:
         out = []
-        out.append(first_mismatch("hits", dk["hits"], d1["hits"], lambda p, q: p["column"] == q["column"] and near(p["offset"], q["offset"], ftol(q["offset"])), "later", "first"))
+        # (a note also carries the sound its id names in the #WAV table: the two files must agree on that)
+        out.append(first_mismatch("hits", dk["hits"], d1["hits"], lambda p, q: p["column"] == q["column"] and near(p["offset"], q["offset"], ftol(q["offset"]))
+                                  and p.get("sample") == q.get("sample"), "later", "first"))
         out.append(first_mismatch("holds", dk["holds"], d1["holds"], lambda p, q: p["column"] == q["column"] and near(p["offset"], q["offset"], ftol(q["offset"]))
-                                  and near(p["end"], q["end"], ftol(q["end"])), "later", "first"))
+                                  and near(p["end"], q["end"], ftol(q["end"])) and p.get("sample") == q.get("sample"), "later", "first"))
         return [x for x in out if x]
 
 
